@@ -292,6 +292,20 @@ func lossyHistory(res *core.Result, r *core.RNG, tier string) (*sim, error) {
 			s.fail(fmt.Sprintf("the retransmission for slot %d differs from the datagram originally sent (power %d vs %d)", slotOf(o), powerOf(o), powerOf(first)), "c08-retransmission-differs")
 		}
 	}
+	// sometimes the retransmissions arrive as late as the acceptance range allows: the clock reads
+	// exactly (oldest retransmitted slot) + 432 when they are delivered
+	if len(resent) > 0 && r.Chance(35) {
+		min := uint32(1<<32 - 1)
+		for _, o := range resent {
+			if len(o) == 80 && slotOf(o) < min {
+				min = slotOf(o)
+			}
+		}
+		if min != 1<<32-1 && min+432 > w.Now {
+			w.SetNow(min + 432)
+			res.Count("lossy.delivered-at-range-end")
+		}
+	}
 	// deliver every retransmission (the fault-free end of the round)
 	for _, o := range resent {
 		if len(o) == 80 {
@@ -335,6 +349,12 @@ func lossyWorker(res *core.Result, r *core.RNG, tier, out string) error {
 	if tier == "thorough" {
 		n = 40
 	}
+	if core.Shard == 1%core.Shards {
+		// the reply a device syncs against must be a snapshot also while the week rotation runs
+		if err := schedSyncVsRotate(res, r.Fork()); err != nil {
+			return err
+		}
+	}
 	for i := 0; i < n; i++ {
 		s, err := lossyHistory(res, r.Fork(), tier)
 		if err != nil {
@@ -345,7 +365,7 @@ func lossyWorker(res *core.Result, r *core.RNG, tier, out string) error {
 		}
 		s.finish(&items)
 	}
-	res.Required = []string{"lossy.history", "lossy.retransmission", "lossy.dropped", "lossy.window-offset-nonzero", "lossy.installed-after-window-start", "lossy.rotated-before-sync"}
+	res.Required = []string{"lossy.history", "lossy.retransmission", "lossy.dropped", "lossy.window-offset-nonzero", "lossy.installed-after-window-start", "lossy.rotated-before-sync", "lossy.delivered-at-range-end", "sched.sync-vs-rotate"}
 	res.Rule = "real client -> scripted UDP relay (each original independently dropped / delivered / duplicated, shuffled) -> real server; readings positive, negative, sentinel, unparseable, int32 extremes; server window at offset 0 / several weeks on / rotating between the originals and the sync round; device installed at genesis / after / before the start of the server window; optional dead second server (failed sync attempts); then one completed sync round of the real client code and delivery of the retransmissions; non-trivial = at least one retransmission; distinct by full history"
 	return writeServerCases(res, out, "lossy", items)
 }
